@@ -149,6 +149,7 @@ pub struct Violation {
 #[derive(Default)]
 pub struct Report {
     inner: Mutex<BTreeMap<String, (Violation, u64)>>,
+    sizes: Mutex<BTreeMap<String, usize>>,
 }
 
 impl Report {
@@ -172,6 +173,35 @@ impl Report {
                     1,
                 )
             });
+    }
+    /// Like `violation`, but among the cases recorded for one key the one with the smallest
+    /// `size` is kept as the replay (independent of thread timing).
+    pub fn violation_sized(
+        &self,
+        key: impl Into<String>,
+        what: impl Into<String>,
+        replay: Value,
+        size: usize,
+    ) {
+        let key = key.into();
+        let what = what.into();
+        let mut g = self.inner.lock().unwrap();
+        let mut sizes = self.sizes.lock().unwrap();
+        match g.get_mut(&key) {
+            Some(e) => {
+                e.1 += 1;
+                let cur = sizes.get(&key).copied().unwrap_or(usize::MAX);
+                if size < cur || (size == cur && what < e.0.what) {
+                    e.0.what = what;
+                    e.0.replay = replay;
+                    sizes.insert(key, size);
+                }
+            }
+            None => {
+                sizes.insert(key.clone(), size);
+                g.insert(key.clone(), (Violation { key, what, replay }, 1));
+            }
+        }
     }
     pub fn distinct(&self) -> usize {
         self.inner.lock().unwrap().len()
